@@ -29,3 +29,15 @@ func VSmoke() {
 	}
 	vrt.Reach("smoke.end")
 }
+
+func init() { vrt.Register("codegen.VSmokeBad", VSmokeBad) }
+
+// VSmokeBad is the engine's self-test twin: it states something false about
+// calculateModRM ([EBX+disp] never needs four displacement bytes) and must
+// come back violated, with a model that reproduces natively.
+func VSmokeBad() {
+	d := vrt.Int64("disp")
+	mem := &ng_operand.MemoryInfo{BaseReg: "EBX", Displacement: d}
+	_, _, disp, _ := calculateModRM(mem, cpu.MODE_32BIT, 0)
+	vrt.Assert(len(disp) != 4, "smokebad.never4")
+}
